@@ -443,7 +443,7 @@ class World:
     def op_recheck(self, op: dict[str, Any]) -> str:
         """End of run: every matcher against the nodes again (late corruption of an early matcher)."""
         for name, mi in self.matchers.items():
-            for nname in list(self.nodes)[:6]:
+            for nname in list(self.nodes)[:12]:
                 x = self.nodes[nname]
                 for y in RW.walk(x)[:5]:
                     try:
@@ -553,6 +553,22 @@ class Gen:
         fields = []
         cands = [f for f in U.FIELDS[cls] if f.kind != "prop" or f.vt in ("str", "int", "optint", "op")]
         r.shuffle(cands)
+        kids = [f for f in U.CHILD_FIELDS[cls] if f.kind in ("opt", "child") and is_node(getattr(x, f.name))]
+        if len(kids) >= 2 and depth >= 1 and r.random() < 0.3:
+            # $var semantics across nesting: capture one child, require a content-equal node somewhere inside a sibling
+            a, b = r.sample(kids, 2)
+            cap = self.newcap()
+            caps.append(cap)
+            sib = getattr(x, b.name)
+            inner_fields = []
+            sub = [f for f in U.CHILD_FIELDS[RW.cname(sib)] if f.kind in ("opt", "child")]
+            tup = [f for f in U.CHILD_FIELDS[RW.cname(sib)] if f.kind == "tuple"]
+            if sub:
+                inner_fields.append([r.choice(sub).name, {"k": "val", "v": {"t": "var", "name": cap}}])
+            elif tup:
+                inner_fields.append([r.choice(tup).name, {"k": "val", "v": {"t": "seq", "elems": [{"v": {"t": "var", "name": cap}}], "tail": True}}])
+            nested = {"cls": "*" if r.random() < 0.5 else [RW.cname(sib)], "fields": inner_fields}
+            return {"cls": clsspec, "fields": [[a.name, {"k": "exists", "cap": cap}], [b.name, {"k": "val", "v": {"t": "node", "p": nested}}]]}
         for f in cands[: r.choice([0, 1, 1, 2, 3, 4])]:
             val = getattr(x, f.name)
             fs: dict[str, Any]
